@@ -6,13 +6,17 @@ Newton/secant/bisection/Aitken scheme on an uninterpreted function); the closure
 the non-degeneracy clause are a bounded stand-in on the compiled code (C11_bounded.py), labelled bounded.
 
 Under contract (real source, re-read on every run):
-  solvers.py::numba_newton_raphson            loop invariant: every iterate and both bracket ends stay >= 0 when the guess is >= 0 and the
-                                              hard bounds are (0, inf); hence any value returned is >= 0; only ValueError escapes
+  solvers.py::numba_newton_raphson            full exit contract for an arbitrary function, guess, bounds, tolerances (contracts/newton_common.py, shared with
+                                              C10): range [min(lo, g-|g|/2), max(hi, g+|g|/2)], bracket invariant (function values, strict sign change, contains the
+                                              iterate, never lost, only shrinks), converged exit = last step passes the tolerance test against the last evaluation
+                                              point, exhausted exit returns only with errors off, only ValueError escapes
   wind_inversion.py::_u10_iteration_function  F(0) = -target;  F(u) = integral of the input at (u, given direction) - target - rate of change
                                               integrated where the input is positive (active region)
   wind_inversion.py::spectral_time_derivative_in_active_region
   wind_inversion.py::_u10_from_bulk_rate_point  target 0 -> (0, given direction); solver called on F with this spectrum/target, bounds (0, inf),
-                                              step tolerance 0.01; any exception -> NaN; without direction iteration the direction is returned unchanged
+                                              step tolerance 0.01 (rtol 1, errors on, 100 iterations, no Aitken step); any exception -> NaN; without direction
+                                              iteration the direction is returned unchanged and (solver's exit contract at the call site) a speed that comes out
+                                              of the solver left it by convergence: last step < 0.01 m/s from the last evaluation point, speed >= 0
   wind_inversion.py::_u10_from_spectra_point  target = -(integrated dissipation), direction = dissipation-weighted mean direction of
                                               _bulk_dissipation_direction_point
   dissipation.py::_bulk_dissipation_direction_point   bulk = integral of the point dissipation, direction = atan2 of the k-weighted sums, mod 360
@@ -33,41 +37,8 @@ B = "wavephysics/balance/"
 WI = B + "wind_inversion.py::"
 
 # ------------------------------------------------------------------------------------------------ the root finder
-FZ = _z3.Function("balance_F", _T.RealS, _T.RealS)
-
-
-class FnModel:
-    """the function handed to the solver: an arbitrary real function of its first argument (trailing arguments fixed)"""
-
-    def __call__(self, interp, st, args, kwargs):
-        return FZ(_T.to_z3(_T.to_real(st.deref(args[0]))))
-
-
-def _p_solver(error_on_max_iter, aitken):
-    def p(mk):
-        return {"function": FnModel(), "guess": mk.real("guess"), "function_arguments": (), "hard_bounds": (0, _T.INF),
-                "max_iterations": mk.int("max_iterations"), "aitken_acceleration": aitken, "atol": mk.real("atol"), "rtol": mk.real("rtol"),
-                "numerical_stepsize": mk.real("h"), "verbose": False, "error_on_max_iter": error_on_max_iter,
-                "relative_stepsize": mk.bool("relative_stepsize"), "name": "", "under_relaxation": mk.real("under_relaxation")}
-    return p
-
-
-def _solver_inv(ns):
-    it, rb = ns.iterates, ns.root_bounds
-    return And(it[0] >= 0, it[1] >= 0, it[2] >= 0, rb[0] >= 0, rb[1] >= 0)
-
-
-SOLVER_INST = [("raise_on_max_iter,aitken", _p_solver(True, True)), ("raise_on_max_iter,plain", _p_solver(True, False)),
-               ("return_on_max_iter,aitken", _p_solver(False, True))]
-newton = Contract(
-    B + "solvers.py::numba_newton_raphson", instances=SOLVER_INST,
-    requires=[("guess_nonnegative", lambda a: a.guess >= 0), ("tolerances", lambda a: And(a.atol > 0, a.rtol > 0, a.numerical_stepsize > 0))],
-    ensures=[("returned_value_within_hard_bounds", lambda a, r: r >= 0)],
-    raises={"ValueError": lambda a: True},
-    options={"loop_invariants": {lab: {1: LoopContract(invariant=[("iterates_and_bracket_nonnegative", _solver_inv)])} for lab, _ in SOLVER_INST},
-             "result": lambda mk, a: mk.real("u_root"), "may_raise": ("ValueError",), "feasibility": "abstract", "max_paths": 6000, "merge_ifs": True},
-)
-newton.loops = {1: LoopContract(invariant=None)}
+# the exit contract of numba_newton_raphson is shared with C10: contracts/newton_common.py (verified there once, for an arbitrary function)
+from contracts.newton_common import newton, newton_at_call, FnModel, FZ, _conv_test as _newton_conv_test
 
 
 # ------------------------------------------------------------------------------------------------ the balance function F
@@ -193,16 +164,9 @@ active_region = Contract(
 
 
 # ------------------------------------------------------------------------------------------------ inversion for a given target
-def _newton_result(mk, a):
-    r = mk.real("u_root")
-    mk.st.ghost["solver_calls"] = mk.st.ghost.get("solver_calls", ()) + (a,)
-    return r
-
-
-# the solver at its call site: result by its proved contract (`newton` above) - value >= 0, may raise; the arguments of every call are recorded
-NEWTON_AT_CALL = CalleeContract(newton.target, _newton_result, requires=newton.requires, ensures=[(l, f) for l, f in newton.ensures], assumed=False,
-                                note="proved above (numba_newton_raphson): result >= 0 for guess >= 0 and hard bounds (0, inf); may raise")
-NEWTON_AT_CALL.may_raise = ("ValueError",)
+# the solver at its call site: the exit contract proved in contracts/newton_common.py (preconditions are call-site obligations, exit clauses assumed for
+# the result, ValueError may escape); every call is recorded as (raw arguments, exit record)
+NEWTON_AT_CALL = newton_at_call("solver_calls")
 STRESS = CalleeContract(B + "stress.py::_total_stress_point", lambda mk, a: (mk.real("stress"), mk.real("stress_direction")), assumed=True,
                         note="total stress and its direction: some reals (used only when the direction is iterated)")
 
@@ -235,13 +199,14 @@ def _solved_equation(a, r):
     """every solver call is for F of *this* spectrum, depth, target and rate of change, from a non-negative start, within (0, inf), step tolerance 0.01"""
     calls = a._ghost.get("solver_calls", ())
     cl = []
-    for c in calls:
+    for c, _x in calls:
         fa = c.function_arguments
         cl += [getattr(c.function, "qualname", "") == "_u10_iteration_function", _same(fa[1], a._raw["variance_density"]),
                fa[2][2] == "u10", _same(fa[3], a._raw["depth"]) or eq(fa[3], a.depth), _same(fa[4], a._raw["wind_source_term_function"]),
                _same(fa[5], a._raw["tail_stress_parametrization_function"]), _same(fa[6], a._raw["spectral_grid"]), _same(fa[7], a._raw["parameters"]),
                eq(fa[8], a.bulk_rate), _same(fa[9], a._raw["time_derivative_spectrum"]), eq(fa[2][0], c.guess),
-               c.hard_bounds[0] == 0, _T._is_inf(c.hard_bounds[1]), c.atol == _T.from_float(1.0e-2)]
+               c.hard_bounds[0] == 0, _T._is_inf(c.hard_bounds[1]), c.atol == _T.from_float(1.0e-2), c.rtol == 1, c.error_on_max_iter is True,
+               c.max_iterations == 100, c.aitken_acceleration is False]
     return And(*cl) if cl else True
 
 
@@ -253,11 +218,25 @@ def _bp_result_clauses(direction_iteration):
     return cl
 
 
+def _converged_exit(a, r):
+    """a speed that comes out of the solver (errors on: only its convergence test lets it return): the last step |u - p| is below the 0.01 m/s step
+    tolerance (and below max(p, 0.01): rtol = 1) for the previous iterate p >= 0, the point of the last evaluation of the balance; the speed is
+    within the hard bounds [0, inf); with a bracket at exit it lies between two winds at which the balance has strictly opposite signs"""
+    calls = a._ghost.get("solver_calls", ())
+    if not calls:
+        return True                              # zero target, or the solver raised (NaN)
+    _c, x = calls[-1]
+    tol = _T.from_float(1.0e-2)
+    return And(len(calls) == 1, eq(r[0], x.result), x.converged, absv(x.result - x.previous) < tol,
+               absv(x.result - x.previous) < If(absv(x.previous) >= tol, absv(x.previous), tol), x.previous >= 0, x.result >= 0,
+               implies(x.bracketed, And(0 <= x.b_lo, x.b_lo < x.b_hi, x.b_lo <= x.result, x.result <= x.b_hi, x.F(x.b_lo) * x.F(x.b_hi) < 0)))
+
+
 def _first_wind(a, r):
     calls = a._ghost.get("solver_calls", ())
     if not calls:
         return True
-    return And(eq(calls[0].guess, a.guess_u10), eq(calls[0].function_arguments[2][1], a.guess_direction))
+    return And(eq(calls[0][0].guess, a.guess_u10), eq(calls[0][0].function_arguments[2][1], a.guess_direction))
 
 
 BP_INST = [("no_direction_iteration", _p_bulk_point(False)), ("direction_iteration", _p_bulk_point(True))]
@@ -266,7 +245,8 @@ bulk_rate_point = Contract(
     requires=[("guess_nonnegative", lambda a: a.guess_u10 >= 0)],
     ensures=_bp_result_clauses(False)[:2] + [(l, f, {"no_direction_iteration"}) for l, f in _bp_result_clauses(False)[2:]] + [
         ("solver_is_given_the_balance_of_this_spectrum_and_target", _solved_equation, {"no_direction_iteration"}),
-        ("first_solve_starts_from_the_guess_wind", _first_wind, {"no_direction_iteration"})],
+        ("first_solve_starts_from_the_guess_wind", _first_wind, {"no_direction_iteration"}),
+        ("returned_speed_left_the_solver_by_convergence_last_step_below_the_0.01_step_tolerance_within_bounds", _converged_exit, {"no_direction_iteration"})],
     callees={newton.target: NEWTON_AT_CALL, STRESS.target: STRESS},
     options={"loop_invariants": {"direction_iteration": {1: LoopContract(invariant=[("speed_nonnegative", lambda ns: ns.u10 >= 0)])}, "no_direction_iteration": {}},
              "result": lambda mk, a: (_T.xr(mk.real("u10_value"), mk.bool("u10_missing")), mk.real("direction"))},
@@ -599,6 +579,9 @@ entry = Contract(
 CONTRACTS = [newton, iteration_function, active_region, bulk_rate_point, bulk_dissipation_direction, spectra_point, spectra_batch, wrapper, entry]
 BOUNDED = [Bounded("inversion_closes_balance.compiled", bounded_inversion)]
 TRUSTED = ["floats as reals: a division by zero yields an unspecified real (numba raises ZeroDivisionError, which the caller's bare except also turns into NaN)",
+           "the function handed to numba_newton_raphson is a (deterministic, total, real-valued) function of its first argument: NaN function values are outside the model, and the "
+           "balance of C11 carries a roughness memory between evaluations (its value depends on the evaluation history through the first guess of the roughness solver)",
            "numba compiles the functions faithfully (the bounded stand-in runs the compiled code; it is what exposed the keyword-argument defect fixed in /repo)"]
-EXPLANATION = ("wiring of the wind inversion proved around an uninterpreted balance function; convergence / closure / non-degeneracy are a bounded check "
+EXPLANATION = ("wiring of the wind inversion proved around an uninterpreted balance function, incl. the exit contract of the root finder (a returned speed left the solver through "
+               "its 0.01 m/s step test, is >= 0, and lies in any sign-change bracket the solver holds); convergence / closure / non-degeneracy are a bounded check "
                "of the compiled estimate_u10_from_source_terms on JONSWAP wind seas")
